@@ -1,0 +1,10 @@
+//go:build verif
+
+package fun
+
+import "github.com/tychoish/fun/internal"
+
+// VerifSetHook installs a handler that is called at the named yield
+// points compiled into the module with the "verif" build tag. It is
+// not part of normal builds.
+func VerifSetHook(fn func(point string)) (restore func()) { return internal.VerifSetHook(fn) }
